@@ -5,7 +5,7 @@ from vf.plan import Plan
 def make(tier):
     P = Plan('C11', level='model_checking', design_ref='DESIGN.md section 5 C11')
     P.meta += ['every operation touches at most 4 ring nodes (itself, its neighbours, the list head), so a universe of 4 elements + 2 heads with ARBITRARY well-formed linkage (all alias patterns, orphan rings, self-linked nodes) covers every configuration an operation can distinguish; induction over the history then gives the membership property for histories of any length']
-    P.not_decided += ['signals with more than three connections, histories of several calls / reconnects (bounded scenarios only); auto_connection_container', 'signal::unregister::base (unregister function run exactly once at connection death): did not close (two connections: 8 GB / 8 min per concrete scenario; one connection observing its signal from inside the unregister function: > 5 min)']
+    P.not_decided += ['signals with more than three connections, histories of several calls / reconnects (bounded scenarios only); auto_connection_container', 'signal::unregister::base (unregister function run exactly once at connection death): did not close (two connections: 8 GB / 8 min per concrete scenario; one connection observing its signal from inside the unregister function: 24 GB exhausted after 18 min)']
     u = P.unit('list', 'shim.cpp', harness=['harness.c'], inline=True)
     for h, what in (('h_elem_ctor', 'base(list&): appended at the end of that list; other lists and untouched nodes unchanged; ring invariant'),
                     ('h_elem_dtor', '~base: the element leaves its list, order of the others kept, no live node refers to it'),
@@ -51,7 +51,7 @@ def make(tier):
                                 ('h_sig_empty', 'signal::empty()'))),
            ('sigc', 'sigc.cpp', (('h_sig_combine', 'signal with a combiner: the result folds the results of exactly the live callbacks, in connection order'),)),
            ('sigu', 'sigu.cpp', tuple(('h_sig_unregister_%d' % K, 'unregister::base: the unregister function of a connection runs exactly once, when its connection object dies (dropped subset %d)' % K) for K in range(4))))
-    # unregister::base (sigu.cpp): neither the two-connection lemmas (8 GB / 8 min each) nor the one-connection scenario h_sig_unreg1 (> 5 min) closed - not registered, listed as not decided
+    # unregister::base (sigu.cpp): neither the two-connection lemmas (8 GB / 8 min each) nor the one-connection scenario h_sig_unreg1 (24 GB exhausted after 18 min) closed - not registered, listed as not decided
     SIG = SIG[:2]
     for un, shim, lem in SIG:   # one translation unit per signal type: every further std::function signature enlarges the target sets of all indirect calls
         us = P.unit(un, shim, harness=['c11_sig_h.c'], inline=True, maxb=32)
